@@ -22,8 +22,10 @@ Alphaindex_AsImplemented(p) ==
 \*   qobs[k] = (position of the k-th smallest observation in the input order) / n ,  qfcst[k] = Fobs(f[k])
 StableRank(o, k) == Cardinality({j \in DOMAIN o : Lt(o[j], o[k])}) + Cardinality({j \in 1..(k - 1) : o[j] = o[k]}) + 1
 ArgSort(o) == [i \in DOMAIN o |-> CHOOSE k \in DOMAIN o : StableRank(o, k) = i]
+\* (with tied observations the positions depend on numpy's unstable argsort: any value in [0, 1] is then "as implemented")
 Leps_AsImplemented(p) ==
   IF N(p) = 0 THEN Undef
+  ELSE IF \E j, k \in DOMAIN p : j # k /\ p[j][1] = p[k][1] THEN [op |-> "any01", v |-> NaN]
   ELSE LET o == O(p)  f == F(p)  n == N(p)
        IN  Q(MeanSeq([k \in DOMAIN p |-> AbsR(Sub(Fobs(p, f[k]), Frac(ArgSort(o)[k] - 1, n)))]))
 =============================================================================
